@@ -122,6 +122,9 @@ pub struct WriteAheadLog {
     file: tokio::fs::File,
     next_seq: u64,
     last_sync: Instant,
+    /// An append started writing a frame and did not complete it (it failed, or its
+    /// future was dropped): bytes may follow the last complete frame of the segment.
+    tail_dirty: bool,
 }
 
 impl WriteAheadLog {
@@ -161,6 +164,7 @@ impl WriteAheadLog {
             file,
             next_seq,
             last_sync: Instant::now(),
+            tail_dirty: false,
         })
     }
 
@@ -220,6 +224,13 @@ impl WriteAheadLog {
     }
 
     async fn append_payload(&mut self, payload: Vec<u8>) -> Result<u64> {
+        // An earlier append that failed or was cancelled part-way can have left a partial
+        // frame behind the last complete one. Cut it off first: entries written after it
+        // could not be read back (readers stop at the first malformed frame).
+        if self.tail_dirty {
+            self.repair_tail().await?;
+        }
+
         let seq = self.next_seq;
         self.next_seq += 1;
 
@@ -232,9 +243,14 @@ impl WriteAheadLog {
             self.rotate().await?;
         }
 
+        self.tail_dirty = true;
         self.file.write_all(&header).await.map_err(map_io_error)?;
         self.file.write_all(&payload).await.map_err(map_io_error)?;
+        // `write_all` only queues the bytes; `flush` reports the outcome of the queued
+        // write, which `sync_data` would swallow.
+        self.file.flush().await.map_err(map_io_error)?;
         self.current_size += entry_size;
+        self.tail_dirty = false;
 
         match self.config.sync_mode {
             WalSyncMode::EveryWrite => {
@@ -256,13 +272,28 @@ impl WriteAheadLog {
             self.sync_current().await?;
         }
 
-        self.current_segment_id += 1;
-        self.current_path = self
-            .config
-            .wal_dir
-            .join(segment_file_name(self.current_segment_id));
-        self.file = open_segment(&self.current_path).await?;
+        // Open the next segment before touching any field, so that a rotation that fails
+        // or is cancelled leaves the log on its current segment.
+        let next_segment_id = self.current_segment_id + 1;
+        let next_path = self.config.wal_dir.join(segment_file_name(next_segment_id));
+        let file = open_segment(&next_path).await?;
+        self.current_segment_id = next_segment_id;
+        self.current_path = next_path;
+        self.file = file;
         self.current_size = 0;
+        Ok(())
+    }
+
+    /// Cut the active segment back to its last complete frame.
+    async fn repair_tail(&mut self) -> Result<()> {
+        // Let a write that is still queued finish first; its outcome belongs to the
+        // abandoned frame.
+        let _ = self.file.flush().await;
+        self.file
+            .set_len(self.current_size)
+            .await
+            .map_err(map_io_error)?;
+        self.tail_dirty = false;
         Ok(())
     }
 
